@@ -161,6 +161,22 @@ func c11Spaces(tier string) []*explore.Space {
 			}
 		}
 	}
+	// U6: an operand that is a multi-step path ending in a positional predicate
+	// (built as a merge query) next to a relative operand, both orders
+	var u6 []gen.Expr
+	posOps := []*gen.Path{relPath(gen.Ch("*"), gen.Ch("*", gen.N(1))), relPath(gen.Ch("*"), gen.Ch("node()", gen.F("last"))), relPath(gen.Ch("*"), gen.Ch("*", gen.B("=", gen.F("position"), gen.N(1)))),
+		relPath(gen.Ch("*", gen.N(1)), gen.Ch("*", gen.N(1))), relPath(gen.Ch("a"), gen.Ch("node()", gen.N(2))), relPath(gen.St("descendant", "*"), gen.Ch("*", gen.N(1))),
+		relPath(gen.Ch("*"), gen.Step{Seq: []gen.Step{gen.Ch("*", gen.N(1)), gen.Ch("text()")}}), relPath(gen.DotDot(), gen.Ch("*", gen.F("last")))}
+	relOps := []*gen.Path{relPath(gen.Ch("*")), relPath(gen.Dot()), relPath(gen.DotDot()), relPath(gen.At("*")), relPath(gen.Ch("text()")), relPath(gen.Ch("a")), relPath(gen.Ch("node()")),
+		relPath(gen.St("following-sibling", "*")), relPath(gen.Ch("*"), gen.Ch("*"))}
+	for _, a := range posOps {
+		for _, b := range relOps {
+			u6 = append(u6, gen.B("|", a, b), gen.B("|", b, a), gen.B("|", gen.B("|", a, b), relPath(gen.Dot())))
+		}
+		for _, b := range posOps {
+			u6 = append(u6, gen.B("|", a, b))
+		}
+	}
 	bag := &evalCfg{Prop: "C11", Ops: []string{"select"}, Mode: "bag"}
 	n := 3
 	if tier == "thorough" {
@@ -174,6 +190,7 @@ func c11Spaces(tier string) []*explore.Space {
 		exprSpace("U3xT3", "sequence form p/(s1, s2[, s3]) x T(<=3)", u3, t3, bag),
 		exprSpace("U4xT3", "A | B | C and (A | B)[P] x T(<=3)", u4, t3, bag),
 		exprSpace("U5xT3", "a union re-evaluated per candidate: host[A | B], host[(A | B) = 'v'], host[count(A | B) > 1], host/(s1, s2) x T(<=3)", u5, t3, bag),
+		exprSpace("U6xT4", "operands ending in a positional predicate (merge queries) united with relative operands, both orders x T(<=4)", u6, func() []*doc.Tree { return uniT(4) }, bag),
 	}
 	if tier == "thorough" {
 		sp = append(sp, exprSpace("U2x11", "A | B pairs x the '-'/digit name universe (<=3)", u2, func() []*doc.Tree { return uni11(3, []string{"v-1", "v", "1", ""}, "mix4") }, bag))
